@@ -265,7 +265,7 @@ def run(ctx: Ctx):
                     jobs.append((kind, shape, part, modes_for(i)))
     pmap(ctx, _enumerate, jobs)
     pmap(ctx, _during, [(k,) for k in aio.CLIENT_KINDS])
-    pmap(ctx, _work, [(k, 10 if ctx.quick else 150) for k in aio.CLIENT_KINDS for _ in range(2)])
+    pmap(ctx, _work, [(k, 10 if ctx.quick else 800) for k in aio.CLIENT_KINDS for _ in range(4)])
     ctx.notes["close_steps_enumerated"] = f"{len(ks)} step offsets x {len(SHAPES)} shapes x 4 clients" + ("" if ctx.quick else " x 3 callback modes (every step 0..129)")
 
 
